@@ -17,24 +17,25 @@ Proof. apply goodb_iff. Qed.
 Theorem good_string_iff a : good_string a = true <-> goodw a.
 Proof. apply goodwb_iff. Qed.
 
-Theorem is_good_iff s : smt_is_good s = true <-> goodw s /\ (Z.of_nat (length s) < MAX_LENGTH)%Z.
+Theorem is_good_iff s : smt_is_good s = true <-> goodw s /\ (Z.of_nat (length s) <= MAX_LENGTH)%Z.
 Proof.
-  unfold smt_is_good. rewrite andb_true_iff, Z.ltb_lt, good_string_iff. tauto.
+  unfold smt_is_good. rewrite andb_true_iff, Z.leb_le, good_string_iff. tauto.
 Qed.
 
 (* under the assumption that the string is shorter than i32::MAX (every string a test can build) *)
-Theorem is_good_iff_goodw s : (Z.of_nat (length s) < MAX_LENGTH)%Z -> (smt_is_good s = true <-> goodw s).
+Theorem is_good_iff_goodw s : (Z.of_nat (length s) <= MAX_LENGTH)%Z -> (smt_is_good s = true <-> goodw s).
 Proof. intros H. rewrite is_good_iff. tauto. Qed.
 
 (* SmtString::make accepts a vector of exactly MAX_LENGTH good characters, is_good rejects it: the two
    bounds of smt_strings.rs differ by one (n > MAX_LENGTH panics, is_good wants n < MAX_LENGTH) *)
 Theorem is_good_boundary s : goodw s -> Z.of_nat (length s) = MAX_LENGTH ->
-  smt_make s = Some s /\ from_vec s = s /\ smt_is_good s = false.
+  smt_make s = Some s /\ from_vec s = s /\ smt_is_good_prefix s = false /\ smt_is_good s = true.
 Proof.
-  intros Hg Hl. split; [|split].
+  intros Hg Hl. split; [|split; [|split]].
   - unfold smt_make. rewrite Hl. reflexivity.
   - unfold from_vec. apply good_string_iff in Hg. unfold good_string in Hg. rewrite Hg. reflexivity.
-  - unfold smt_is_good. rewrite Hl. reflexivity.
+  - unfold smt_is_good_prefix. rewrite Hl. reflexivity.
+  - apply is_good_iff. split; [assumption|lia].
 Qed.
 
 (* ---- len / is_empty / char / iter *)
